@@ -34,7 +34,7 @@ func c18Options(r *rng, es [][]string) spec.Options {
 	var o spec.Options
 	o.P1 = pick(r, "", "greedy", "dfs")
 	o.P2 = pick(r, "", "ns", "longestpath")
-	o.P4 = pick(r, "", "sinkcoloring", "bk", "bk", "valign", "packright")
+	o.P4 = pick(r, "", "sinkcoloring", "bk", "bk", "valign", "packright", "ns", "ns")
 	o.P5 = pick(r, "", "polyline", "splines", "splines", "ortho", "straight")
 	if r.chance(60) {
 		o.FixedSize = &[2]float64{float64(pick(r, 10, 40, 100)), float64(pick(r, 10, 40))}
@@ -53,7 +53,9 @@ func c18Probe(r *rng) spec.Call {
 	if r.chance(50) {
 		es = append(es, []string{"s", "p"})
 	}
-	return spec.Call{Edges: es, Opts: spec.Options{P5: pick(r, "", "polyline", "ortho")}}
+	// any positioner / layerer / cycle breaker: state parked by one algorithm is picked up again by the same one
+	return spec.Call{Edges: es, Opts: spec.Options{P5: pick(r, "", "polyline", "ortho"), P4: pick(r, "", "", "ns", "bk", "valign", "packright", "sinkcoloring"),
+		P2: pick(r, "", "", "longestpath", "ns"), P1: pick(r, "", "", "dfs", "greedy")}}
 }
 
 func (cx *Ctx) c18History(r *rng) []spec.Call {
@@ -347,7 +349,7 @@ func (cx *Ctx) runC18() {
 		mjobs = append(mjobs, cx.c18Job(i, []spec.Call{c}, false))
 	}
 	cx.phase("C18: measuring base calls")
-	mres := cx.sim.Run(mjobs, nil)
+	mres := cx.simFresh.Run(mjobs, nil)
 	enumerated := 0
 	for i, jr := range mres {
 		if jr.Res == nil || len(jr.Res.Outcomes) != 1 {
@@ -378,7 +380,8 @@ func (cx *Ctx) runC18() {
 		}
 	}
 	cx.phase(fmt.Sprintf("C18: %d histories (%d random, %d enumerated fault positions)", len(hjobs), nHist, enumerated))
-	hres := cx.sim.Run(hjobs, nil)
+	// every history runs in a fresh worker process: the process history is exactly the history's calls
+	hres := cx.simFresh.Run(hjobs, nil)
 	// passivity references
 	var refJobs []*spec.Job
 	type rk struct{ h, c int }
@@ -395,7 +398,7 @@ func (cx *Ctx) runC18() {
 		}
 	}
 	cx.phase(fmt.Sprintf("C18: %d passivity references", len(refJobs)))
-	rres := cx.sim.Run(refJobs, nil)
+	rres := cx.simFresh.Run(refJobs, nil)
 	refOf := map[rk]JobResult{}
 	for k, rr := range rres {
 		refOf[refIdx[k]] = rr
@@ -403,6 +406,7 @@ func (cx *Ctx) runC18() {
 	cx.phase("C18: analysing")
 
 	ncalls, nevents, died := 0, 0, 0
+	var simTicks uint64
 	faults := map[string]int{}
 	configured := map[string]int{}
 	shapes := map[string]bool{}
@@ -432,6 +436,7 @@ func (cx *Ctx) runC18() {
 		var shape []string
 		hasMonEvents, hasLater, fired := false, false, false
 		for i, o := range ocs {
+			simTicks += o.Ticks
 			c := calls[i]
 			s := "none"
 			if c.Monitor.Role != "" {
@@ -525,6 +530,7 @@ func (cx *Ctx) runC18() {
 		"histories_enumerated_faults":  enumerated,
 		"calls":                        ncalls,
 		"events":                       nevents,
+		"sim_ticks_total":              simTicks,
 		"distinct_history_shapes":      len(shapes),
 		"faults_fired":                 faults,
 		"faults_configured":            configured,
